@@ -645,6 +645,8 @@ enum LK {
     Date,
     Ts,
     Intv,
+    /// a DOUBLE value, written as a cast of its text (also the non-finite ones and 1e30)
+    F64,
 }
 
 fn int_lit(t: &str) -> (String, SV) {
@@ -666,6 +668,10 @@ fn lit(k: LK, v: u16) -> (String, SV) {
         LK::Str => {
             let t = STR_LITS[pick(v, STR_LITS.len())];
             (format!("'{}'", t.replace('\'', "''")), SV::Str(t.to_string()))
+        }
+        LK::F64 => {
+            let t = ["inf", "-inf", "NaN", "1e30", "1.5", "2", "0.25", "-3"][pick(v, 8)];
+            (format!("cast('{t}' as double)"), SV::F64(t.parse::<f64>().unwrap()))
         }
         LK::Date => {
             let t = DATE_LITS[pick(v, DATE_LITS.len())];
@@ -812,6 +818,9 @@ struct Gen<'a> {
     st: &'a mut Stats,
     allow_null_nn: bool,
     allow_lossy: bool,
+    /// DOUBLE literals may be used: the statement has a single VALUES row or is INSERT .. SELECT
+    /// (in a multi-row VALUES list a double would change the common type of the whole column)
+    f64_lits: bool,
 }
 
 impl Gen<'_> {
@@ -854,6 +863,9 @@ impl Gen<'_> {
             native(col.bt, c.v)
         } else if m < 60 {
             lit(LK::Null, 0)
+        } else if m < 66 && self.f64_lits && matches!(col.bt, BT::Dec(_)) {
+            // a DOUBLE into a DECIMAL column (non-finite and out-of-range ones must be refused)
+            lit(LK::F64, c.v)
         } else if m < 95 {
             lit(compat[pick(c.kind, compat.len())], c.v)
         } else {
@@ -1186,7 +1198,11 @@ async fn body(
     let mut snap = BTreeMap::new();
     for (k, stmt) in case.stmts.iter().enumerate() {
         let base = (k as i64 + 1) * 1000;
-        let mut g = Gen { st, allow_null_nn, allow_lossy };
+        let f64_lits = match stmt {
+            Stmt::Values { rows, rep, .. } => rows.len() == 1 && *rep <= 1,
+            _ => true,
+        };
+        let mut g = Gen { st, allow_null_nn, allow_lossy, f64_lits };
         let (sql, plan, via) = match stmt {
             Stmt::Values { list, rows, rep } => {
                 let (order, explicit) = col_order(list, tab, !allow_null_nn);
